@@ -496,10 +496,11 @@ def skip_case(draw):
                                                            'sn': b''}, 'pce': None, 'mru': None}]}),
             {'k': 'UD', 'ver': draw(S.byte), 'sub': draw(S.byte), 'comp': comp, 'data': draw(S.payload(16))}]
     return {'pel': M.minimal_pel(secs, ph=M.default_ph(creator=ord(creator))), 'creator': creator, 'comp': comp,
-            'mode': draw(st.sampled_from(['-f', '-a', '-l'])), 'optimize': draw(st.booleans())}
+            'mode': draw(st.sampled_from(['-f', '-a', '-l', '-i', '--bmc-id', '--plid', '--src', '-j'])),
+            'optimize': draw(st.booleans())}
 
 
-@PROP.given('skip-plugins-real', lambda tier: skip_case(), quick=32, thorough=400, shards_quick=8)
+@PROP.given('skip-plugins-real', lambda tier: skip_case(), quick=48, thorough=600, shards_quick=8)
 def skip_plugins_real(case, note):
     creator, comp = case['creator'], case['comp']
     with D.TempDir('c18') as top:
@@ -514,10 +515,12 @@ def skip_plugins_real(case, note):
         PL.PluginFixtures(spec).write(fixroot)
         d = os.path.join(top, 'logs')
         os.makedirs(d)
-        path = os.path.join(d, 'pel0')
+        path = os.path.join(d, 'pel0_50000001')
         with open(path, 'wb') as f:
             f.write(M.encode(case['pel']))
-        argv = ['-f', path] if case['mode'] == '-f' else ['-p', d, case['mode']]
+        argv = {'-f': ['-f', path], '-i': ['-p', d, '-i', '50000001'], '--bmc-id': ['-p', d, '--bmc-id', '4660'],
+                '--plid': ['-p', d, '--plid', '50000001'], '--src': ['-p', d, '--src', 'BD8D'],
+                '-j': ['-p', d, '-j', '-o', top]}.get(case['mode'], ['-p', d, case['mode']])
         results = {}
         for label, extra in (('on', []), ('off', ['-P'])):
             calllog = os.path.join(top, 'calls-%s.log' % label)
